@@ -8,7 +8,6 @@ stdout: one JSON line per case:
 The objects are built from abstract descriptions through the public API only
 (see harness/props/c05.py for the description format).
 """
-import inspect
 import json
 import logging
 import sys
@@ -164,18 +163,19 @@ def build(t):
 
 
 def conv_opts(obj, o):
-    params = inspect.signature(obj.equals).parameters
+    """The options of the case (already restricted by the harness to those the
+    class documents) as keyword arguments."""
     kw = {}
     for name, key in (("rtol", "rtol"), ("atol", "atol")):
-        if o.get(key) is not None and name in params:
+        if o.get(key) is not None:
             n, d = o[key]
             kw[name] = n / d if d != 1 else n
     for name, key in (("ignore_data_type", "idt"), ("ignore_fill_value", "ifv"),
                       ("ignore_compression", "icomp"), ("ignore_type", "itype"),
                       ("verbose", "verbose")):
-        if key in o and o[key] is not None and name in params:
+        if o.get(key) is not None:
             kw[name] = o[key]
-    if o.get("ip") is not None and "ignore_properties" in params:
+    if o.get("ip") is not None:
         ip = o["ip"]
         kw["ignore_properties"] = ip if isinstance(ip, str) else (tuple(ip) if o.get("ip_tuple") else list(ip))
     return kw
@@ -209,9 +209,8 @@ def main():
         if c.get("extra"):
             row["self"] = call(lambda: x.equals(x, **kw))
             row["copy"] = call(lambda: x.equals(x.copy(), **kw))
-            if hasattr(y, "equals"):
-                kw2 = conv_opts(y, c["opts"])
-                row["rev"] = call(lambda: y.equals(x, **kw2))
+            if hasattr(y, "equals") and type(y) is type(x):
+                row["rev"] = call(lambda: y.equals(x, **kw))
         # equals must not leave the log level changed
         lvl = str(cfdm.log_level().value)
         if lvl != "DISABLE":
